@@ -48,13 +48,14 @@ def _sel_kwargs(sel):
         'fixed_str': dict(fixed_species='Si'), 'fixed_list': dict(fixed_species=['Si']),
         'fixed_all_other': dict(fixed_species=['Si', 'S']),
         'floating_str': dict(floating_species='Li'), 'floating_list': dict(floating_species=['Li']),
+        'floating_Si_str': dict(floating_species='Si'), 'floating_Si_list': dict(floating_species=['Si']),
         'none': dict(),
     }[sel]
 
 
 def _ref_atoms(sel):
     return {'fixed_str': REF, 'fixed_list': REF, 'fixed_all_other': OTHER_FIXED, 'floating_str': OTHER_FIXED,
-            'floating_list': OTHER_FIXED, 'none': [0, 1, 2, 3]}[sel]
+            'floating_list': OTHER_FIXED, 'none': [0, 1, 2, 3], 'floating_Si_str': [2, 3], 'floating_Si_list': [2, 3]}[sel]
 
 
 def _lemma_recompute(gt, kind, E, b, M, bounds):
@@ -165,7 +166,7 @@ def drift_job(params):
             # floating = all other species fixed
             if sel.startswith('floating'):
                 traj4 = _mk(gt, kind, d.copy(), b.copy(), M)
-                res4 = traj4.apply_drift_correction(fixed_species=['Si', 'S'])
+                res4 = traj4.apply_drift_correction(fixed_species=['S', 'Li'] if 'Si' in sel else ['Si', 'S'])
                 D4 = res4.displacements
                 for idx in np.ndindex(D.shape):
                     prove_isolated('naming the floating species = naming all other species as fixed', D4[idx] == E[idx],
@@ -193,6 +194,13 @@ def drift_job_replay(params, inputs):
     except Exception as e:
         return False, f'{type(e).__name__}: {e}; {desc}'
     exp = d - d[:, ref].mean(axis=1)[:, None, :]
+    # the drift itself needs no assumption beyond |step| < 1/2
+    try:
+        drift = _mk(gt, kind, d.copy(), b.copy(), M).drift(**kw)
+    except Exception as e:
+        return False, f'drift: {type(e).__name__}: {e}; {desc}'
+    if drift.shape != (T, 1, 3) or not np.all(np.isfinite(drift)) or np.abs(drift[:, 0, :] - d[:, ref].mean(axis=1)).max() > 1e-9:
+        return False, f'drift {drift[:, 0, :].tolist()} != mean displacement of the reference atoms {d[:, ref].mean(axis=1).tolist()}; {desc}'
     if np.abs(exp).max() >= 0.5 or np.abs(d + sig[:, None, :]).max() >= 0.5:
         return True, 'outside the claim (step reaches the half cell)'
     if D.shape != d.shape or not np.all(np.isfinite(D)) or np.abs(D - exp).max() > 1e-9:
@@ -210,7 +218,7 @@ def drift_job_replay(params, inputs):
     if np.abs(res3.displacements - D).max() > 1e-9:
         return False, f'rigid drift {sig.tolist()} changes the corrected motion; {desc}'
     if sel.startswith('floating'):
-        D4 = traj.apply_drift_correction(fixed_species=['Si', 'S']).displacements
+        D4 = traj.apply_drift_correction(fixed_species=['S', 'Li'] if 'Si' in sel else ['Si', 'S']).displacements
         if np.abs(D4 - D).max() > 1e-9:
             return False, f'floating selection differs from fixed selection of all other species; {desc}'
     return True, 'ok'
@@ -224,9 +232,10 @@ def jobs(tier, seed):
     sels = ['fixed_str', 'fixed_list', 'floating_str', 'floating_list', 'none']
     if tier == 'quick':
         cfg = [(2, s, 'Species', 'cubic5') for s in sels] + [(3, 'fixed_str', 'Species', 'tric'), (2, 'floating_str', 'Element', 'cubic5'),
-                                                             (2, 'fixed_str', 'Element', 'cubic5')]
+                                                             (2, 'fixed_str', 'Element', 'cubic5'), (2, 'floating_Si_str', 'Species', 'cubic5'),
+                                                             (2, 'floating_Si_list', 'Element', 'cubic5')]
     else:
-        cfg = [(T, s, k, lat) for T in (2, 3, 4) for s in sels + ['fixed_all_other'] for k in ('Species', 'Element')
+        cfg = [(T, s, k, lat) for T in (2, 3, 4) for s in sels + ['fixed_all_other', 'floating_Si_str', 'floating_Si_list'] for k in ('Species', 'Element')
                for lat in (('cubic5',) if T > 2 else ('cubic5', 'tric'))]
     for T, s, k, lat in cfg:
         js.append(dict(name=f'drift_T{T}_{s}_{k}_{lat}', fn='drift_job', params=dict(T=T, sel=s, species_kind=k, lattice=lat)))
